@@ -59,11 +59,11 @@ CLAIMS = {
          "then each operator level; equal levels associate to the left, logical chains build the balanced tree with the operands in source order, parentheses group, arguments, "
          "elements and entries keep their order; and from SOURCE TEXT: compile(text(render t)) = tree, where text writes each token followed by a space (the lexer model is proved to "
          "read such text back token for token, numbers included). Also proved: the balanced-tree leaf order for every chain length, prefix-run parity, macros expand around receiver "
-         "and arguments. Outside the theorem: negative literals (a token pair), string/bytes/double literals (C12/C13), message literals. Tied to the code per case: the run checks on "
+         "and arguments. String and bytes literal tokens are leaves of the trees too (any token whose decoding is known), and one-quote literals also in the source-text theorem. Outside the theorem: negative literals (a token pair), double literals (C13), message literals. Tied to the code per case: the run checks on "
          "every tree of the theorem's domain (all trees with <= 2 operators in both renderings, random deeper ones, chains to 24, prefix runs to 7, mixed left-associative chains) that "
          "the real parser's AST is the tree's AST and that the model's lexer turns the source text into exactly the rendering the theorem is about; all other trees (negative literals, "
          "nested macros, chains 2-64) are compared between the real parser, the model's parser and the expected tree."),
- "C12": ("PARTIAL. Theorems about the literal decoders (unquote_string / unquote_bytes transcribed): for every string of scalar values, both "
+ "C12": ("Theorems about the literal decoders (unquote_string / unquote_bytes transcribed): for every string of scalar values, both "
          "one-quote styles and every per-character choice among verbatim, simple escape, \\x, \\X, octal, \\u and \\U spellings the literal decodes to "
          "exactly that string (bytes: \\x/\\X/octal are single bytes, everything else its UTF-8); raw one-quote literals are verbatim; the escape "
          "table; general lemmas for the numeric escapes; invalid escapes reject; the same for the triple-quoted forms (the same bodies between three-quote "
